@@ -317,10 +317,10 @@ theorem macro_invocation_is_expansion {R : Type} [Scalar R] (env : Env R) (fuel 
 
 /-! ### the environment handed to a macro body (`RawParameters::next`) -/
 
-theorem pmap_get?_insert_same (m : PMap) (k v : Str) : (m.insert k v).get? k = some v := by
+theorem pmap_get_insert_same (m : PMap) (k v : Str) : (m.insert k v).get? k = some v := by
   simp [PMap.insert, PMap.get?]
 
-theorem find?_filter_ne (m : PMap) (k k' : Str) (h : k' ≠ k) :
+theorem find_filter_ne (m : PMap) (k k' : Str) (h : k' ≠ k) :
     (m.filter (·.1 != k)).find? (·.1 == k') = m.find? (·.1 == k') := by
   induction m with
   | nil => rfl
@@ -335,31 +335,31 @@ theorem find?_filter_ne (m : PMap) (k k' : Str) (h : k' ≠ k) :
       simp only [List.filter_cons, h1, if_true, List.find?_cons]
       cases e.1 == k' <;> simp [ih]
 
-theorem pmap_get?_insert_ne (m : PMap) (k k' v : Str) (h : k' ≠ k) : (m.insert k v).get? k' = m.get? k' := by
+theorem pmap_get_insert_ne (m : PMap) (k k' v : Str) (h : k' ≠ k) : (m.insert k v).get? k' = m.get? k' := by
   have h2 : (k == k') = false := by simpa using fun hh => h hh.symm
-  simp only [PMap.insert, PMap.get?, List.find?_cons, h2, find?_filter_ne m k k' h]
+  simp only [PMap.insert, PMap.get?, List.find?_cons, h2, find_filter_ne m k k' h]
 
-theorem pmap_get?_erase_ne (m : PMap) (k k' : Str) (h : k' ≠ k) : (m.erase k).get? k' = m.get? k' := by
-  simp only [PMap.erase, PMap.get?, find?_filter_ne m k k' h]
+theorem pmap_get_erase_ne (m : PMap) (k k' : Str) (h : k' ≠ k) : (m.erase k).get? k' = m.get? k' := by
+  simp only [PMap.erase, PMap.get?, find_filter_ne m k k' h]
 
 /-- extending an environment leaves every key that the extension does not mention as it was -/
-theorem pmap_get?_extend_not_mem (m n : PMap) (k : Str) (h : ∀ e ∈ n, e.1 ≠ k) : (m.extend n).get? k = m.get? k := by
+theorem pmap_get_extend_not_mem (m n : PMap) (k : Str) (h : ∀ e ∈ n, e.1 ≠ k) : (m.extend n).get? k = m.get? k := by
   unfold PMap.extend
   induction n generalizing m with
   | nil => rfl
   | cons e rest ih =>
     simp only [List.foldl_cons]
     rw [ih _ (fun e' he' => h e' (List.mem_cons_of_mem _ he'))]
-    exact pmap_get?_insert_ne m e.1 k e.2 (fun hh => h e List.mem_cons_self hh.symm)
+    exact pmap_get_insert_ne m e.1 k e.2 (fun hh => h e List.mem_cons_self hh.symm)
 
 /-- ... and binds the key of its last entry to that entry's value -/
-theorem pmap_get?_extend_last (m n1 n2 : PMap) (k v : Str) (h : ∀ e ∈ n2, e.1 ≠ k) :
+theorem pmap_get_extend_last (m n1 n2 : PMap) (k v : Str) (h : ∀ e ∈ n2, e.1 ≠ k) :
     (m.extend (n1 ++ (k, v) :: n2)).get? k = some v := by
   unfold PMap.extend
   rw [List.foldl_append, List.foldl_cons]
-  have := pmap_get?_extend_not_mem ((List.foldl (fun acc e => acc.insert e.1 e.2) m n1).insert k v) n2 k h
+  have := pmap_get_extend_not_mem ((List.foldl (fun acc e => acc.insert e.1 e.2) m n1).insert k v) n2 k h
   unfold PMap.extend at this
-  rw [this, pmap_get?_insert_same]
+  rw [this, pmap_get_insert_same]
 
 /-- **caller arguments are visible to the body of a macro regardless of how parameters are named**:
 whatever the caller's environment binds and the invocation does not rebind (other than the
@@ -374,8 +374,8 @@ theorem next_keeps_caller_values (self : RawParameters) (definition : Str) (k : 
     (self.next definition).globals.get? k = self.globals.get? k := by
   unfold RawParameters.next
   simp only [hres, if_true, hfresh, Bool.false_eq_true, if_false]
-  rw [pmap_get?_erase_ne _ _ _ hk.2.2.2, pmap_get?_erase_ne _ _ _ hk.2.2.1, pmap_get?_erase_ne _ _ _ hk.2.1,
-    pmap_get?_extend_not_mem, pmap_get?_erase_ne _ _ _ hk.1]
+  rw [pmap_get_erase_ne _ _ _ hk.2.2.2, pmap_get_erase_ne _ _ _ hk.2.2.1, pmap_get_erase_ne _ _ _ hk.2.1,
+    pmap_get_extend_not_mem, pmap_get_erase_ne _ _ _ hk.1]
   intro e he
   simp only [List.mem_map] at he
   obtain ⟨e0, he0, rfl⟩ := he
@@ -398,7 +398,7 @@ theorem next_binds_argument (self : RawParameters) (definition : Str) (k v : Str
         | _ => v) := by
   unfold RawParameters.next
   simp only [hres, if_true, hfresh, Bool.false_eq_true, if_false]
-  rw [pmap_get?_erase_ne _ _ _ hk.2.2, pmap_get?_erase_ne _ _ _ hk.2.1, pmap_get?_erase_ne _ _ _ hk.1, hsplit,
+  rw [pmap_get_erase_ne _ _ _ hk.2.2, pmap_get_erase_ne _ _ _ hk.2.1, pmap_get_erase_ne _ _ _ hk.1, hsplit,
     List.map_append, List.map_cons]
   have hkeys : ∀ e ∈ List.map (fun (e : Str × Str) =>
       match chase self.globals [(e.1, e.2)] e.1 with
@@ -411,11 +411,11 @@ theorem next_binds_argument (self : RawParameters) (definition : Str) (k v : Str
     split <;> exact this
   simp only []
   cases hc : chase self.globals [(k, v)] k with
-  | error err => exact pmap_get?_extend_last _ _ _ k v hkeys
+  | error err => exact pmap_get_extend_last _ _ _ k v hkeys
   | ok o =>
     cases o with
-    | none => exact pmap_get?_extend_last _ _ _ k v hkeys
-    | some r => exact pmap_get?_extend_last _ _ _ k r hkeys
+    | none => exact pmap_get_extend_last _ _ _ k v hkeys
+    | some r => exact pmap_get_extend_last _ _ _ k r hkeys
 
 end C04
 end Geodesy
